@@ -40,7 +40,7 @@ CHECKS = {
     },
     "C04": {
         "level": "exploration",
-        "rule": "rapid stateful generation of every read path (subscribe, get, new, call/auth resource response, HTTP GET) x access outcomes (grant, get:false, missing result, RES error, timeout, no responders) x answer orders x token events, reaccess events and system.reset access patterns at any step; oracle over the boundary log: every frame handing a root resource needs an access answer for that connection/resource with get:true that was valid at the decision step (no trigger between the answer and a later request that reuses it); a first request whose access answer is not a grant must get that error. Non-trivial = a denial and a grant for the same connection+resource in one history, or a trigger between grant and data; distinct by script hash",
+        "rule": "rapid stateful generation of every read path (subscribe, get, new, call/auth resource response, HTTP GET) x access outcomes (grant, get:false, missing result, RES error, timeout, no responders) x answer orders x token events, reaccess events and system.reset access patterns at any step; oracle over the boundary log: every frame handing a root resource needs an access answer for that connection/resource with get:true that was valid at the decision step (no trigger between the answer and a later request that reuses it); a first request whose access answer is not a grant must get that error. With the connection hook: once a subscribe, get or resource request for a resource has failed on a connection, the gateway counts no more direct subscriptions to it there than the client has confirmed plus requests in flight. Bursts: a resource held directly and below a parent is deleted, a trigger follows, the client asks again. Non-trivial = a denial and a grant for the same connection+resource in one history, or a trigger between grant and data; distinct by script hash",
         "assumptions": A_SIM + ["decision-time validity (DESIGN 3.6): a trigger that lands after the verdict was taken but before the data frame creates a C06 obligation instead"],
         "parts": [sim(300, 5000)],
     },
@@ -64,37 +64,37 @@ CHECKS = {
     },
     "C12": {
         "level": "exploration",
-        "rule": "(a) pattern matcher differential: rapid-generated patterns and names over the token alphabet {a,b,ab,*,>,?,space,e-acute,empty,a*,*a,...} and raw strings, ParseResourcePattern/IsValid/Match against a tokenising reference matcher; (b) collection diff: rapid-generated pairs of sequences (length <= 40, repeated values, b derived from a by edits) and the exhaustive enumeration of all pairs of sequences of length <= 5 over 3 values (132,496 pairs, exhaustive sub-run), events applied by an independent applier must have every index in range, yield exactly b, and be empty for a == b; (c) simulator: system.reset with generated pattern lists against caches with plain and query variants. Non-trivial = valid wildcard pattern with a well-formed name / a != b with a repeated value / reset with wildcard hitting both matching and non-matching cached names; distinct by input hash",
+        "rule": "(a) pattern matcher differential: rapid-generated patterns and names over the token alphabet {a,b,ab,*,>,?,space,e-acute,empty,a*,*a,...} and raw strings, ParseResourcePattern/IsValid/Match against a tokenising reference matcher; (b) collection diff: rapid-generated pairs of sequences (length <= 40, repeated values, b derived from a by edits) and the exhaustive enumeration of all pairs of sequences of length <= 5 over 3 values (132,496 pairs, exhaustive sub-run), events applied by an independent applier must have every index in range, yield exactly b, and be empty for a == b; (c) simulator: system.reset with generated pattern lists against caches with plain and query variants. A matching cached resource whose initial get is still outstanding is fetched exactly once more. Non-trivial = valid wildcard pattern with a well-formed name / a != b with a repeated value / reset with wildcard hitting both matching and non-matching cached names; distinct by input hash",
         "assumptions": ["the reference matcher and the event applier are the trusted oracles", "VerifLCS (hook) calls the unexported lcs routine unchanged"],
         "parts": [sim(200, 3000, qshards=8, tshards=10), unit("C12-pattern", 60000, 600000), unit("C12-lcs", 30000, 300000), {"engine": "unit", "test": "TestExhaustiveLCS", "prop": "C12-lcs-exhaustive", "quick": {"cases": 1, "shards": 1, "timeout": 60}, "thorough": {"cases": 1, "shards": 1, "timeout": 60}}, fuzz("FuzzPattern", 60)],
     },
     "C14": {
         "level": "exploration",
-        "rule": "(a) unit: rapid-generated rids, method strings and URL paths over hostile tokens (control bytes, space, CR LF, * > ?, empty tokens, leading/trailing dots, percent-encodings, non-ASCII) for IsValidRID/IsValidRIDPart, rpc.HandleRequest with a recording requester, PathToRID/RIDToPath against reference implementations; (b) simulator: the same hostile grammar as WebSocket methods and HTTP paths (three apiPath prefixes, PUT/DELETE mappings), {cid} rids, queries containing dots and wildcards, and service answers carrying invalid resource ids; oracle: every subject given to Subscribe/SendRequest (other than ones a service supplied verbatim) is clean, equals type.name[.method] for the reference-decoded rid, rejected inputs get system.invalidRequest/404 and cause no service traffic in their step. Non-trivial = input contains a byte outside [A-Za-z0-9.] and reaches the validity decision / a percent-encoded path; distinct by input or script hash",
+        "rule": "(a) unit: rapid-generated rids, method strings and URL paths over hostile tokens (control bytes, space, CR LF, * > ?, empty tokens, leading/trailing dots, percent-encodings, non-ASCII) for IsValidRID/IsValidRIDPart, rpc.HandleRequest with a recording requester, PathToRID/RIDToPath against reference implementations; (b) simulator: the same hostile grammar as WebSocket methods and HTTP paths (three apiPath prefixes, PUT/DELETE mappings), {cid} rids, queries containing dots and wildcards, and service answers carrying invalid resource ids; oracle: every subject given to Subscribe/SendRequest (other than ones a service supplied verbatim) is clean, equals type.name[.method] for the reference-decoded rid, rejected inputs get system.invalidRequest/404 and cause no service traffic in their step. Service events (change, legacy change, add) carrying references that are no valid resource ids are never followed. Non-trivial = input contains a byte outside [A-Za-z0-9.] and reaches the validity decision / a percent-encoded path; distinct by input or script hash",
         "assumptions": A_SIM + ["inputs the HTTP layer itself rejects (net/http request-line parsing) never reach the gateway and are not judged"],
         "parts": [sim(250, 4000, qshards=8, tshards=10), unit("C14-rid", 40000, 400000), unit("C14-method", 40000, 400000), unit("C14-path", 40000, 400000), fuzz("FuzzRID", 60)],
     },
     "C15": {
         "level": "exploration",
-        "rule": "(a) unit: every codec decoder, Value.UnmarshalJSON and rpc.HandleRequest on rapid-generated bytes and grammar-generated/cut JSON over the protocol's key set (no panic; an error comes with a nil result; accepted values are proper; accepted resource ids are valid; meta header keys canonical), native fuzzing in thorough; (b) simulator: in generated valid histories, messages from explicit invalidity classes (syntax errors, wrong JSON types, negative/huge/fractional idx, add/remove on model, change on collection, other type on re-fetch, rid+data, rid+action, action+data, unknown action, bare object/array values, invalid/empty rids, null array elements, one bad value among good ones, partly valid query answers) injected as client frame, event, get/access/call/query answer, system or connection event at any step; oracle: the process survives (journal attribution), the injection step yields no event frame and (hook) leaves the cached JSON of every resource unchanged, later valid messages still converge (C01 oracle) and every request is still answered (C07 oracle). Non-trivial = the injected message is syntactically valid JSON; distinct by script/input hash",
+        "rule": "(a) unit: every codec decoder, Value.UnmarshalJSON and rpc.HandleRequest on rapid-generated bytes and grammar-generated/cut JSON over the protocol's key set (no panic; an error comes with a nil result; accepted values are proper; accepted resource ids are valid; meta header keys canonical), native fuzzing in thorough; (b) simulator: in generated valid histories, messages from explicit invalidity classes (syntax errors, wrong JSON types, negative/huge/fractional idx, add/remove on model, change on collection, other type on re-fetch, rid+data, rid+action, action+data, unknown action, bare object/array values, invalid/empty rids, null array elements, one bad value among good ones, partly valid query answers) injected as client frame, event, get/access/call/query answer, system or connection event at any step; oracle: the process survives (journal attribution), the injection step yields no event frame and (hook) leaves the cached JSON of every resource unchanged, later valid messages still converge (C01 oracle) and every request is still answered (C07 oracle). Malformed payloads are also built by construction (any number of well-formed members and exactly one malformed one at a drawn position; a re-fetch answered with a well-formed resource of the other type, empty or not; zero-byte and truncated token events); a malformed resource, system or connection event causes no service request. Non-trivial = the injected message is syntactically valid JSON; distinct by script/input hash",
         "assumptions": A_SIM + ["byte-level fuzzing only waits for crashes and decoder contract breaches; semantic containment is checked for the enumerated invalidity classes"],
         "parts": [sim(300, 5000), unit("C15-decode", 60000, 600000), fuzz("FuzzDecoders", 90)],
     },
     "C13": {
         "level": "exploration",
-        "rule": "rapid stateful generation over two query resources (model and collection) with drawn normalisation maps (raw = normalised, several raws aliasing one normalised query, a non-query base answering with a query), subscriptions from 1-3 connections with both aliasing gets in flight in either answer order, query events answered with events / full model or collection / error / notFound / timeout per query in any order, further events, resets and subscriptions inside the window; oracle: no get for a raw query already fetched and linked (within a cache incarnation, resets and deletes considered); on a query event exactly one query request per distinct loaded normalised query (hook pre-state); no get.<n> while query requests for n are outstanding; plus the C01 convergence oracle per alias rid and the C07 every-request-answered oracle (processing always resumes). Non-trivial = two raw queries share a normalised query and a query event occurred with >= 2 cached queries; distinct by script hash",
+        "rule": "rapid stateful generation over two query resources (model and collection) with drawn normalisation maps (raw = normalised, several raws aliasing one normalised query, a non-query base answering with a query), subscriptions from 1-3 connections with both aliasing gets in flight in either answer order, query events answered with events / full model or collection / error / notFound / timeout per query in any order, further events, resets and subscriptions inside the window; oracle: no get for a raw query already fetched and linked (within a cache incarnation, resets and deletes considered); on a query event exactly one query request per distinct loaded normalised query (hook pre-state); no get.<n> while query requests for n are outstanding; plus the C01 convergence oracle per alias rid and the C07 every-request-answered oracle (processing always resumes). A query request answered with system.notFound delivers, in that step, the delete event on every rid held under a settled subscription. Non-trivial = two raw queries share a normalised query and a query event occurred with >= 2 cached queries; distinct by script hash",
         "assumptions": A_SIM + ["timeouts are the adapter's completion with system.timeout, not elapsed time"],
         "parts": [sim(300, 5000)],
     },
     "C19": {
         "level": "exploration",
-        "rule": "(a) unit: rescache.Throttle with limits 1-4 under rapid-generated Add/Done sequences against a queue model (running <= limit, FIFO starts, every Done with waiters starts exactly one, everything added eventually starts); (b) simulator scenarios with resetThrottle / referenceThrottle N in {0,1,2,3,5}: reset fan-outs over 1-40 cached resources and 1-32 connections (many connections on one resource) with resource and/or access patterns, optionally a second overlapping reset; reference trees of width/depth <= 4 with shared and cyclic children, one root per connection; answers oldest-first, newest-first or drawn; oracle: at every quiescent step the governed requests outstanding are <= N (x throttles alive), with N = 0 all are sent at once, and at the end every governed request was sent (exact count for a single reset) and every client request answered. Non-trivial = fan-out > N > 0 with an answer order other than arrival order; distinct by script hash",
+        "rule": "(a) unit: rescache.Throttle with limits 1-4 under rapid-generated Add/Done sequences against a queue model (running <= limit, FIFO starts, every Done with waiters starts exactly one, everything added eventually starts); (b) simulator scenarios with resetThrottle / referenceThrottle N in {0,1,2,3,5}: reset fan-outs over 1-40 cached resources and 1-32 connections (many connections on one resource) with resource and/or access patterns, optionally a second overlapping reset; reference trees of width/depth <= 4 with shared and cyclic children, one root per connection; answers oldest-first, newest-first or drawn; oracle: at every quiescent step the governed requests outstanding are <= N (x throttles alive), with N = 0 all are sent at once, and at the end every governed request was sent (exact count for a single reset) and every client request answered. Reference gets are answered with errors and timeouts in a drawn share of the cases (every answer frees the place). Non-trivial = fan-out > N > 0 with an answer order other than arrival order; distinct by script hash",
         "assumptions": A_SIM + ["the bound is tight (N) for a single reset / single loading root; for overlapping resets it is N x live throttles"],
         "parts": [sim(150, 2500), unit("C19-throttle", 3000, 40000)],
     },
     "C16": {
         "level": "exploration",
-        "rule": "rapid-generated resource graphs of up to 6 models/collections plus an error leaf and a query resource (shared children, cycles of any length, self references, soft references, nested data values, keys and strings needing JSON escaping), both API encodings, three apiPath prefixes; GET (and HEAD) on drawn resources with everything answered, POST with result / null / resource response; oracle: body parses as JSON and equals an independent recursive reference renderer (path-based cycle cut, error placeholders, data unwrapped, href mapping back to the rid through the reference path decoder), status 200 + Content-Type, HEAD has the same status and headers, POST returns the result verbatim / 204 / Location. Non-trivial = the expansion contains a nested reference; distinct by script hash",
+        "rule": "rapid-generated resource graphs of up to 6 models/collections plus an error leaf and a query resource (shared children, cycles of any length, self references, soft references, nested data values, keys and strings needing JSON escaping), both API encodings, three apiPath prefixes; GET (and HEAD) on drawn resources with everything answered, POST with result / null / resource response; oracle: body parses as JSON and equals an independent recursive reference renderer (path-based cycle cut, error placeholders, data unwrapped, href mapping back to the rid through the reference path decoder), status 200 + Content-Type, HEAD has the same status and headers, POST returns the result verbatim / 204 / Location. Query variants of one name reference each other (pagination) and the plain name; a failed reference is compared as the whole error (code, message, data), with drawn custom messages and data. Non-trivial = the expansion contains a nested reference; distinct by script hash",
         "assumptions": A_SIM + ["graphs are static while a request is served"],
         "parts": [sim(400, 6000)],
     },
@@ -106,31 +106,31 @@ CHECKS = {
     },
     "C10": {
         "level": "exploration",
-        "rule": "rapid stateful generation with 2-4 WebSocket connections plus HTTP requests, distinct tokens and token ids, {cid} tags in resource names, in the middle of names, in queries and in references returned by the service, token events, token resets, events on per-connection resources; oracle over the logs: requests caused by a connection's own frame/request/token event carry that connection's id, every access/call/auth payload carries that connection's current token, no subject or query made for one connection contains another connection's id, no frame or HTTP body sent to any client contains any connection id, events on a {cid} resource reach only its owner, a token reset produces exactly one auth request per connection whose token id is listed; plus the applicability oracle of C02. Non-trivial = >= 2 connections, a {cid} resource in use and a token-related event; distinct by script hash",
+        "rule": "rapid stateful generation with 2-4 WebSocket connections plus HTTP requests, distinct tokens and token ids, {cid} tags in resource names, in the middle of names, in queries and in references returned by the service, token events, token resets, events on per-connection resources; oracle over the logs: requests caused by a connection's own frame/request/token event carry that connection's id, every access/call/auth payload carries that connection's current token, no subject or query made for one connection contains another connection's id, no frame or HTTP body sent to any client contains any connection id, events on a {cid} resource reach only its owner, a token reset produces exactly one auth request per connection whose token id is listed; plus the applicability oracle of C02. Token resets also name the empty token id (which addresses nobody). Non-trivial = >= 2 connections, a {cid} resource in use and a token-related event; distinct by script hash",
         "assumptions": A_SIM + ["cid leakage is a substring scan: a transformed cid would not be recognised"],
         "parts": [sim(300, 5000)],
     },
     "C11": {
         "level": "fault_enumeration",
-        "rule": "rapid generates base histories (4-16 ops after an optional prologue of established subscriptions; C01 generator incl. calls, token resets, resets with access patterns; a third with resetThrottle/referenceThrottle 1-2 so that work can be waiting inside a throttle); for each base of n ops and each of its (up to 3) connections, n+1 variants close that connection before op k, each run in a fresh gateway (evaluations = base + variant runs); oracle: the connection-event subscription is released in the step of the close, no access/call/auth request carrying that connection id is issued in any later step (incl. after token resets and throttle hand-offs), the other connections still get every response (C07 oracle) and converge (C01 oracle), and after closing everything the cache is empty (C09 end state and use-count invariant). Non-trivial = the connection had an unanswered service request or client request when it was closed; distinct by variant script hash",
+        "rule": "rapid generates base histories (4-16 ops after an optional prologue of established subscriptions; C01 generator incl. calls, token resets, resets with access patterns; a third with resetThrottle/referenceThrottle 1-2 so that work can be waiting inside a throttle); for each base of n ops and each of its (up to 3) connections, n+1 variants close that connection before op k, each run in a fresh gateway (evaluations = base + variant runs); oracle: the connection-event subscription is released in the step of the close, no access/call/auth request carrying that connection id is issued in any later step (incl. after token resets and throttle hand-offs), the other connections still get every response (C07 oracle) and converge (C01 oracle), and after closing everything the cache is empty (C09 end state and use-count invariant). A request made for the closing connection within the close step itself counts as one after the disconnect when the close is the step's only stimulus; bursts leave an access re-check deferred behind an event that waits for an unloaded reference, with filler subscriptions in between (the disposal walks a map). Non-trivial = the connection had an unanswered service request or client request when it was closed; distinct by variant script hash",
         "assumptions": A_SIM + ["gets are anonymous at the messaging boundary: for them only the cache clean-up is asserted", "aborting an HTTP request mid-flight is not modelled"],
         "parts": [sim(14, 220, qtimeout=300)],
     },
     "C20": {
         "level": "fault_enumeration",
-        "rule": "rapid generates base histories (3-12 ops after an optional prologue; idle connections, outstanding subscribe/get/call requests, pending evictions with a 20 ms delay); for each base of n ops and each fault in {Stop(nil), loss of the messaging connection (closed handler invoked from its own goroutine)}, n+1 variants inject the fault before op k in a fresh gateway, followed by a WebSocket dial, an HTTP GET, Start, a new connection subscribing, and the final Stop; oracle: every client socket reads EOF in the fault's step, the stop channel delivers the cause (nil / the lost-connection error), the dial after the fault is not upgraded, the HTTP request gets 503, Stop returns (a Stop that has not returned after 30 s is a deadlock), nothing crashes (journal), no goroutine is left behind, and the restarted service serves the subscribe. Non-trivial = a service request or client request was outstanding when the fault struck; distinct by variant script hash",
-        "assumptions": A_SIM + ["base histories contain no HTTP request outstanding at the fault (the 3 s / 5 s shutdown constants cannot be shortened)", "TLS and real listeners are not exercised"],
+        "rule": "rapid generates base histories (3-12 ops after an optional prologue; idle connections, outstanding subscribe/get/call requests, pending evictions with a 20 ms delay); for each base of n ops and each fault in {Stop(nil), loss of the messaging connection (closed handler invoked from its own goroutine)}, n+1 variants inject the fault before op k in a fresh gateway, followed by a WebSocket dial, an HTTP GET, Start, a new connection subscribing, and the final Stop; oracle: every client socket reads EOF in the fault's step, the stop channel delivers the cause (nil / the lost-connection error), the dial after the fault is not upgraded, the HTTP request gets 503, Stop returns (a Stop that has not returned after 30 s is a deadlock), nothing crashes (journal), no goroutine is left behind, and the restarted service serves the subscribe. After the restart a second fault (loss or Stop, alternating) strikes and the service is started once more: every fault cycle is held to the statement. A fifth of the cases listen on real loopback ports (API, and metrics in half of them): the ports refuse connections after every fault and accept them after every Start. Non-trivial = a service request or client request was outstanding when the fault struck; distinct by variant script hash",
+        "assumptions": A_SIM + ["base histories contain no HTTP request outstanding at the fault (the 3 s / 5 s shutdown constants cannot be shortened)", "TLS is not exercised; real listeners only in the fifth of the cases that listen on loopback"],
         "parts": [sim(18, 250, qtimeout=300)],
     },
     "C18": {
         "level": "exploration",
-        "rule": "the unmodified nats/nats.go adapter against a scriptable fake NATS server on loopback that enforces the control-line limit exactly as nats-server 2.6.6 does (argument part of PUB/HPUB/SUB > 4096 bytes => -ERR and connection closed); rapid generates 5-40 concurrent requests per case, each with a wire behaviour (one reply, several replies, silence, late reply, timeout pre-response followed by reply / silence / a second pre-response, empty 503, reply racing the deadline, subjects of every length in a band around the limit and far beyond with payload sizes of 1-5 digits), an event burst on a subscription, a long namespace Subscribe, and a server disconnect; oracle: exactly one completion per request, of a kind the behaviour allows, never a timeout earlier than the configured or extended deadline (one-sided), subjects that cannot fit complete with subjectTooLong and are never written, the server never has to drop the connection, events arrive in publish order and none after Unsubscribe returned, disconnect invokes the closed handler. Non-trivial = the case mixes >= 3 behaviours incl. a pre-response or a race; distinct by case hash",
+        "rule": "the unmodified nats/nats.go adapter against a scriptable fake NATS server on loopback that enforces the control-line limit exactly as nats-server 2.6.6 does (argument part of PUB/HPUB/SUB > 4096 bytes => -ERR and connection closed); rapid generates 5-40 concurrent requests per case, each with a wire behaviour (one reply, several replies, silence, late reply, timeout pre-response followed by reply / silence / a second pre-response, empty 503, reply racing the deadline, subjects of every length in a band around the limit and far beyond with payload sizes of 1-5 digits), an event burst on a subscription, a long namespace Subscribe, and a server disconnect; oracle: exactly one completion per request, of a kind the behaviour allows, never a timeout earlier than the configured or extended deadline (one-sided), subjects that cannot fit complete with subjectTooLong and are never written, the server never has to drop the connection, events arrive in publish order and none after Unsubscribe returned, disconnect invokes the closed handler. Event payloads take every shape a service may publish (null, true, bare words, pre-response look-alikes, empty); the server also drops the connection while 1-5 requests are pending (one optionally after a pre-response): each completes exactly once without Close. Non-trivial = the case mixes >= 3 behaviours incl. a pre-response or a race; distinct by case hash",
         "assumptions": ["real time: the only time-based verdicts are one-sided (a timeout earlier than the deadline)", "the fake server implements the subset of the NATS client protocol the adapter uses; its control-line rule was read from nats-server 2.6.6 parser.go"],
         "parts": [{"engine": "natsrig", "test": "TestAdapter", "prop": "C18", "quick": {"cases": 14, "shards": 16, "timeout": 120}, "thorough": {"cases": 150, "shards": 16, "timeout": 1200}}],
     },
     "C07": {
         "level": "exploration",
-        "rule": "rapid stateful generation of request mixes (1-2 connections, subscribe/get/unsubscribe/call/auth/new/ill-formed methods, every outcome and order of the dependent access/get/call answers, events, deletes, revocations), end-of-history epilogue answering everything; oracle: reference client counts responses per id (never two, never unknown, error objects with string code/message) and at quiescence every id on an open connection has exactly one. Non-trivial = >=2 requests for one rid overlapped, or an unsubscribe/unsubscribe event/delete hit a rid with a pending request; distinct by hash of the executed script",
+        "rule": "rapid stateful generation of request mixes (1-2 connections, subscribe/get/unsubscribe/call/auth/new/ill-formed methods, every outcome and order of the dependent access/get/call answers, events, deletes, revocations), end-of-history epilogue answering everything; oracle: reference client counts responses per id (never two, never unknown, error objects with string code/message) and at quiescence every id on an open connection has exactly one. Frames with a method but no id (or a null id) are sent for every action: nothing answers them. Non-trivial = >=2 requests for one rid overlapped, or an unsubscribe/unsubscribe event/delete hit a rid with a pending request; distinct by hash of the executed script",
         "assumptions": A_SIM,
         "parts": [sim(450, 6000)],
     },
